@@ -267,6 +267,8 @@ class ExcelCompiler:
                 return [to_python(v) for v in value]
             elif isinstance(value, float):
                 return float(value)
+            elif isinstance(value, int) and type(value) not in (int, bool):
+                return int(value)
             return value
 
         excel = _CompiledImporter(filename, data)
@@ -1337,10 +1339,14 @@ class _CompiledImporter:
         elif isinstance(cell_value, str) and cell_value.startswith('='):
             return ExcelOpxWrapper.RangeData(address, cell_value, None)
 
-        elif isinstance(cell_value, float):
-            # the yaml loader produces a float subclass, for which python math
-            # (ie: sum()) is not bit for bit the same as for a float
-            return ExcelOpxWrapper.RangeData(address, '', float(cell_value))
+        elif (isinstance(cell_value, (int, float)) and
+                type(cell_value) not in (int, float, bool)):
+            # the yaml loader produces subclasses of float (and of int for a
+            # 0), for which python math (ie: sum()) is not bit for bit the
+            # same as for a float / an int
+            number_type = float if isinstance(cell_value, float) else int
+            return ExcelOpxWrapper.RangeData(
+                address, '', number_type(cell_value))
 
         else:
             return ExcelOpxWrapper.RangeData(address, '', cell_value)
